@@ -269,56 +269,63 @@ type matchedEntry struct {
 }
 
 func matchEntries(before, after []Entry) (ml []matchedEntry) {
+	ml = make([]matchedEntry, 0, len(after)+len(before))
 	for _, a := range after {
+		ml = append(ml, matchedEntry{after: a, hasAfter: true}) // nolint: exhaustruct
+	}
+
+	// First pass: pair every HEAD rule with an identical rule from the base branch,
+	// so that a new rule sharing the name cannot claim it.
+	for i := range ml {
+		a := ml[i].after
 		slog.Debug(
 			"Matching HEAD rule",
 			slog.String("path", a.Path.Name),
 			slog.String("source", a.Path.SymlinkTarget),
 			slog.String("name", a.Rule.Name()),
 		)
-
-		m := matchedEntry{after: a, hasAfter: true} // nolint: exhaustruct
-		beforeSwap := make([]Entry, 0, len(before))
-		var matches []Entry
-		var matched bool
-
-		for _, b := range before {
-			if !matched && a.Rule.Name() != "" && a.Rule.IsIdentical(b.Rule) {
-				m.before = b
-				m.hasBefore = true
-				m.isIdentical = isEntryIdentical(b, a)
-				m.wasMoved = a.Path.Name != b.Path.Name
-				matched = true
+		if a.Rule.Name() == "" {
+			continue
+		}
+		for j, b := range before {
+			if a.Rule.IsIdentical(b.Rule) {
+				ml[i].before = b
+				ml[i].hasBefore = true
+				ml[i].isIdentical = isEntryIdentical(b, a)
+				ml[i].wasMoved = a.Path.Name != b.Path.Name
+				before = slices.Delete(slices.Clone(before), j, j+1)
 				slog.Debug(
 					"Found identical rule on before & after",
-					slog.Bool("identical", m.isIdentical),
-					slog.Bool("moved", m.wasMoved),
+					slog.Bool("identical", ml[i].isIdentical),
+					slog.Bool("moved", ml[i].wasMoved),
 				)
-			} else {
-				beforeSwap = append(beforeSwap, b)
+				break
 			}
 		}
-		before = beforeSwap
+	}
 
-		if !matched {
-			before, matches = findRulesByName(before, a.Rule.Name(), a.Rule.Type())
-			switch len(matches) {
-			case 0:
-			case 1:
-				m.before = matches[0]
-				m.hasBefore = true
-				m.wasMoved = a.Path.Name != matches[0].Path.Name
-				slog.Debug("Found rule with same name on before & after")
-			default:
-				slog.Debug(
-					"Found multiple rules with same name on before & after",
-					slog.Int("matches", len(matches)),
-				)
-				before = append(before, matches...)
-			}
+	// Second pass: pair remaining HEAD rules with base rules by name.
+	for i := range ml {
+		if ml[i].hasBefore {
+			continue
 		}
-
-		ml = append(ml, m)
+		a := ml[i].after
+		var matches []Entry
+		before, matches = findRulesByName(before, a.Rule.Name(), a.Rule.Type())
+		switch len(matches) {
+		case 0:
+		case 1:
+			ml[i].before = matches[0]
+			ml[i].hasBefore = true
+			ml[i].wasMoved = a.Path.Name != matches[0].Path.Name
+			slog.Debug("Found rule with same name on before & after")
+		default:
+			slog.Debug(
+				"Found multiple rules with same name on before & after",
+				slog.Int("matches", len(matches)),
+			)
+			before = append(before, matches...)
+		}
 	}
 
 	for _, b := range before {
